@@ -74,6 +74,14 @@ def construct(op, objs, a):
     raise ValueError(op)
 
 
+class HarnessError(Exception):
+    """The harness itself failed (never recorded as an outcome of the library)."""
+
+
+class FreshRaised(Exception):
+    """The call raised in the fresh interpreter (an outcome, compared with the in-process outcome)."""
+
+
 def call(op, objs, args, entry="method"):
     """Perform one public operation.  Returns a tuple of results."""
     import autoray as ar
@@ -104,12 +112,14 @@ def call(op, objs, args, entry="method"):
 
         c = a["call"]
         p = subprocess.run([sys.executable, "-m", "harness.fresh_call"], input=pickle.dumps((c["op"], objs, c.get("args", {}), c.get("entry", "method"))),
-                           capture_output=True, cwd=os.path.dirname(os.path.dirname(os.path.abspath(__file__))), env=dict(os.environ))
-        if p.returncode != 0:
-            raise RuntimeError("fresh interpreter failed: " + p.stderr.decode()[-500:])
-        out = json.loads(p.stdout.decode())
+                           capture_output=True, cwd=os.path.dirname(os.path.dirname(os.path.abspath(__file__))),
+                           env=dict(os.environ, **{k: str(v) for k, v in c.get("env", {}).items()}))
+        lines = [l for l in p.stdout.decode().splitlines() if l.startswith("@@FRESH-RESULT@@")]
+        if p.returncode != 0 or not lines:
+            raise HarnessError("fresh interpreter failed: " + p.stderr.decode()[-800:])
+        out = json.loads(lines[-1][len("@@FRESH-RESULT@@"):])
         if out["outcome"] != "ok":
-            raise RuntimeError("raised in the fresh interpreter: " + out["exc"])
+            raise FreshRaised(out["exc"])
         return tuple(out["results"])
     if op == "set_cache":
         import symmray.abelian_core as _ac
@@ -421,7 +431,7 @@ class Session:
                 with warnings.catch_warnings():
                     warnings.simplefilter("ignore")
                     res = call(st["op"], objs, args, st.get("entry", "method"))
-            except OutOfRange:
+            except (OutOfRange, HarnessError):
                 raise
             except BaseException as e:  # the error path is an outcome, not a crash
                 if isinstance(e, (KeyboardInterrupt, SystemExit)):
